@@ -61,3 +61,10 @@ Definition civil_from_unix (off t : Z) : option civil :=
       let sod := local mod 86400 in
       Some (y, m, d, sod / 3600, (sod / 60) mod 60, sod mod 60)
   end.
+
+(* lexicographic order on civil tuples (most significant first) *)
+Definition civil_lt (a b : civil) : Prop :=
+  let '(y1, m1, d1, h1, i1, s1) := a in
+  let '(y2, m2, d2, h2, i2, s2) := b in
+  y1 < y2 \/ (y1 = y2 /\ (m1 < m2 \/ (m1 = m2 /\ (d1 < d2 \/ (d1 = d2 /\ (h1 < h2 \/ (h1 = h2 /\ (i1 < i2 \/ (i1 = i2 /\ s1 < s2))))))))).
+Definition civil_le (a b : civil) : Prop := a = b \/ civil_lt a b.
